@@ -114,6 +114,16 @@ def round53(x):
     return Fraction(float(x))
 
 
+def kern_of(c):
+    """kernel table of the case as Fractions = the stored table times 2^kscale.  Scaling by a power of two is
+    exact in binary64 (no under/overflow in the range used), every statement of the three routines is
+    homogeneous in the kernel, and the property's matrices do not depend on the unit of length
+    (Properties_C08: C08_lle_scale_free, C08_local_gram_scale, C08_eig_contract_scale): an absolute
+    threshold anywhere in the routines shows up on the scaled copies."""
+    s = Fraction(2) ** int(c.get("kscale", 0))
+    return [[fr(x) * s for x in r] for r in c["kern"]]
+
+
 def parse_hexfloat(t):
     if t in ("nan", "inf", "-inf"):
         return None
@@ -285,6 +295,183 @@ def gen_wm_hlle_oracle(rng):
             "nbrs": knn_lists(K, k), "kern": K, "gen": "hlle-oracle-d1"}
 
 
+# ---- scaled copies: the unit of length is free.  2^-60 .. 2^60 covers "micrometres in metres" to astronomical units
+KSCALES = [-60, -40, -30, -20, 20, 30, 40, 60]
+
+
+def with_kscale(rng, c):
+    c = dict(c)
+    c["kscale"] = rng.choice(KSCALES)
+    c["gen"] = c["gen"] + "-scaled"
+    return c
+
+
+def exact_double(v):
+    return Fraction(float(v)) == v
+
+
+def aniso_flat(rng, n, d, span, emin, emax):
+    """exactly d-flat data, strongly anisotropic INSIDE the flat: integer intrinsic coordinates X (n x d), axis t
+    shrunk by 2^-e_t (one axis keeps e = 0, the others get e_t in [emin, emax]: axis ratios 1e-3 .. 1e-5, local
+    Gram eigenvalue ratios 1e-6 .. 1e-10, still far from rank deficient in binary64), then an injective integer
+    map into D >= d dimensions.  Returns X (unscaled: affine functions of X and of the scaled coordinates are the
+    same functions), the exponents and the linear kernel table (every entry exactly a double)."""
+    while True:
+        X = gen_points(rng, n, d, span)
+        D = d + rng.randint(0, 1)
+        A = [[rng.randint(-2, 2) for _ in range(d)] for _ in range(D)]
+        if rank(A) != d:
+            continue
+        ex = [0] + [rng.randint(emin, emax) for _ in range(d - 1)]
+        rng.shuffle(ex)
+        pts = [[sum(Fraction(A[r][t] * x[t], 2 ** ex[t]) for t in range(d)) for r in range(D)] for x in X]
+        K = [[sum(a * b for a, b in zip(p, q)) for q in pts] for p in pts]
+        if all(exact_double(v) for r in K for v in r):
+            return X, ex, [[float(v).hex() for v in r] for r in K]
+
+
+def nbhd_rank_ok(X, lists, k, d):
+    """every neighbourhood spans the whole d-flat (exact)"""
+    for l in lists:
+        P = [X[j] for j in l[:k]]
+        if rank([[a - b for a, b in zip(p, P[0])] for p in P[1:]]) != d:
+            return False
+    return True
+
+
+def gen_wm_aniso(rng, meth, hard):
+    """WM stream on anisotropic flats.  ltsa: oracle model (E from the routine's own solver calls);
+    hlle: exact model from the integer coordinates (the local matrix only depends on the span)"""
+    d = rng.choice([2, 2, 3]) if meth == "ltsa" else 2
+    emin, emax = (14, 16) if hard else (10, 13)
+    if meth == "hlle":
+        emin, emax = (13, 14) if hard else (10, 12)
+    for _ in range(200):
+        nc = hlle_ncols(d)
+        n = rng.choice([8, 10, 12]) if meth == "ltsa" else nc + rng.randint(2, 4)
+        X, ex, K = aniso_flat(rng, n, d, 6, emin, emax)
+        n = len(X)
+        k = rng.randint(d + 2, min(n - 1, 7)) if meth == "ltsa" else rng.randint(nc, min(n - 1, nc + 2))
+        nb = knn_lists(K, k) if rng.random() < 0.6 else random_lists(rng, n, k, dup=False)
+        if nbhd_rank_ok(X, nb, k, d):
+            break
+    return {"kind": "WM", "meth": meth, "n": n, "d": d,
+            "shift": rng.choice(SHIFTS + SHIFT_DEFAULTS) if meth == "ltsa" else "0", "tshift": "0", "nbrs": nb,
+            "kern": K, "flatX": [list(x) for x in X], "axexp": ex,
+            "gen": "%s-flat-aniso-%s" % (meth, "hard" if hard else "mild")}
+
+
+def gen_emb_aniso(rng, meth, hard):
+    d = 2
+    emin, emax = (14, 16) if hard else (10, 13)
+    if meth == "hlle":
+        emin, emax = (13, 14) if hard else (10, 12)
+    nc = hlle_ncols(d)
+    n = rng.choice([10, 12, 16]) if meth == "ltsa" else nc + rng.randint(3, 6)
+    X, ex, K = aniso_flat(rng, n, d, 6, emin, emax)
+    n = len(X)
+    k = rng.randint(d + 2, n - 1) if meth == "ltsa" else rng.randint(nc, n - 1)
+    return {"kind": "EMB", "meth": meth, "nm": rng.choice(["brute", "vptree", "covertree"]), "n": n, "k": k, "d": d,
+            "shift": rng.choice(["0x1p-10", "0x1p-20", "0x1.12e0be826d695p-30"]) if meth == "ltsa" else "0",
+            "tshift": "0", "kern": K, "flatX": [list(x) for x in X], "axexp": ex,
+            "gen": "emb-%s-flat-aniso-%s" % (meth, "hard" if hard else "mild")}
+
+
+# ---- curved HLLE with d = 2 and an exact model: reflection-symmetric neighbourhoods
+SYM_REPS = [(0, 0), (1, 0), (0, 1), (1, 1), (2, 0), (0, 2), (2, 1), (1, 2), (2, 2)]
+
+
+def sym_orbit(p):
+    return sorted({(sx * p[0], sy * p[1]) for sx in (1, -1) for sy in (1, -1)})
+
+
+def locv_certificate(kern, l, V):
+    """EXACT certificate that the integer columns of V (k x d) span the top-d eigenspace of the centred Gram matrix
+    the local eigensolver sees for the neighbour list l: B v_t = s_t v_t, the v_t mutually orthogonal and orthogonal
+    to 1, and every other eigenvalue (>= 0, their sum is tr B - sum s_t) below the selected ones.
+    Returns (top / gap) or None."""
+    k, d = len(l), len(V[0])
+    G = [[kern[a][b] for b in l] for a in l]
+    rm = [sum(r) / k for r in G]
+    gm = sum(rm) / k
+    B = [[G[a][b] - rm[a] - rm[b] + gm for b in range(k)] for a in range(k)]
+    if any(B[a][b] != B[b][a] for a in range(k) for b in range(k)):
+        return None
+    cols = [[Fraction(V[a][t]) for a in range(k)] for t in range(d)]
+    ss = []
+    for t, v in enumerate(cols):
+        vv = sum(x * x for x in v)
+        if vv == 0 or sum(v) != 0:
+            return None
+        Bv = [sum(B[a][b] * v[b] for b in range(k)) for a in range(k)]
+        st = sum(x * y for x, y in zip(v, Bv)) / vv
+        if any(Bv[a] != st * v[a] for a in range(k)):
+            return None
+        if any(sum(x * y for x, y in zip(v, cols[u])) != 0 for u in range(t)):
+            return None
+        ss.append(st)
+    rest = sum(B[a][a] for a in range(k)) - sum(ss)
+    if rest < 0 or min(ss) <= 2 * rest:
+        return None
+    return float(max(ss) / (min(ss) - rest))
+
+
+def gen_wm_hlle_curved(rng):
+    """CURVED data (a quadric z = h (a x^2 + b y^2) over a reflection-symmetric integer grid), d = 2, neighbour
+    lists = unions of orbits of the reflections x -> -x, y -> -y: the local covariance is exactly diagonal, so the
+    top-2 eigenspace of the centred Gram matrix is spanned by two centred INTEGER coordinate columns
+    (Properties_C08.C08_diag_cov_eigvec) and the exact sqrt-free Gram-Schmidt of the model runs on small integers
+    (C08_hlle_local_sqrt_free).  The third local eigenvalue is not zero: the neighbourhoods are not flat."""
+    d = 2
+    for _ in range(400):
+        a, b = rng.choice([(1, 1), (1, -1), (2, 1), (1, 2), (1, 0), (2, -1)])
+        h = rng.choice([1, 1, 2, 3])
+        reps = [SYM_REPS[0]] + rng.sample(SYM_REPS[1:], rng.randint(4, 6))
+        orbits = [sym_orbit(p) for p in reps]
+        if not 9 <= sum(len(o) for o in orbits) <= 13 or not any(len(o) == 4 for o in orbits):
+            continue
+        pts = [(x, y, h * (a * x * x + b * y * y)) for o in orbits for (x, y) in o]
+        where, pos = [], 0
+        for o in orbits:
+            where.append(list(range(pos, pos + len(o))))
+            pos += len(o)
+        n = len(pts)
+        K = kernel_table(pts, "linear")
+        k = rng.randint(6, min(9, n - 1))
+        nb, locV = [], []
+        for i in range(n):
+            ok = False
+            for _try in range(60):
+                order = list(range(len(orbits)))
+                rng.shuffle(order)
+                l = []
+                for o in order:
+                    if len(l) + len(where[o]) <= k:
+                        l += where[o]
+                if len(l) != k:
+                    continue
+                rng.shuffle(l)
+                zs = [pts[j][2] for j in l]
+                colsx = [[pts[j][0] for j in l], [pts[j][1] for j in l], [k * z - sum(zs) for z in zs]]
+                var = [Fraction(sum(v * v for v in colsx[0])), Fraction(sum(v * v for v in colsx[1])),
+                       Fraction(sum(v * v for v in colsx[2]), k * k)]
+                top2 = sorted(range(3), key=lambda t: -var[t])[:2]
+                V = [[colsx[t][a_] for t in sorted(top2)] for a_ in range(k)]
+                cond = locv_certificate([[Fraction(x) for x in r] for r in K], l, V)
+                if cond is None or hlle_conditioning(V, k, d) < 1e-2:
+                    continue
+                ok = True
+                break
+            if not ok:
+                break
+            nb.append(l)
+            locV.append(V)
+        if len(nb) == n:
+            return {"kind": "WM", "meth": "hlle", "n": n, "d": d, "shift": "0", "tshift": "0", "nbrs": nb,
+                    "kern": K, "locV": locV, "gen": "hlle-curved-sym-d2"}
+    raise RuntimeError("gen_wm_hlle_curved: no case found")
+
+
 def gen_emb(rng, meth, thorough):
     nm = rng.choice(["brute", "vptree", "covertree"])
     if meth == "hlle":
@@ -379,7 +566,7 @@ def nbrs_text(nb):
 def case_line(c):
     if c["kind"] == "EIG":
         return "EIG %d %s" % (c["n"], " ".join(cxx_tok(x) for r in c["M"] for x in r))
-    kern = " ".join(cxx_tok(fr(x)) for r in c["kern"] for x in r)
+    kern = " ".join(cxx_tok(x) for r in kern_of(c) for x in r)
     if c["kind"] == "WM":
         return "WM %s %d %d %s %s %s %s" % (c["meth"], c["n"], c["d"], cxx_tok(fr(c["shift"])),
                                             cxx_tok(fr(c["tshift"])), nbrs_text(c["nbrs"]), kern)
@@ -488,7 +675,7 @@ def parse_model_matrix(line, n):
 def model_line(c, nbrs, mats):
     """the model command for the weight matrix of case c with neighbour lists nbrs (+ oracle answers in mats)"""
     n, d, meth = c["n"], c["d"], c["meth"]
-    kern = [[fr(x) for x in r] for r in c["kern"]]
+    kern = kern_of(c)
     nbt = nbrs_text(nbrs)
     k = len(nbrs[0]) if nbrs else 0
     if meth == "lle":
@@ -498,7 +685,9 @@ def model_line(c, nbrs, mats):
         rsk = mats["rsk"][0][0]
         return "LTSA %d %d %s %s %s %s" % (n, d, q_tok(rsk), q_tok(fr(c["shift"])), nbt, qmat_text(E))
     if meth == "hlle":
-        if "flatX" in c:
+        if "locV" in c:
+            V = [[Fraction(x) for x in row] for Vi in c["locV"] for row in Vi]
+        elif "flatX" in c:
             V = [[Fraction(c["flatX"][j][t]) for t in range(d)] for l in nbrs for j in l[:k]]
         else:
             E = mats["Eloc"]
@@ -561,20 +750,27 @@ def hlle_conditioning(Vrows, k, d):
 
 
 def hlle_well_conditioned(c, nbrs, mats, thr=1e-4):
+    return hlle_min_conditioning(c, nbrs, mats) >= thr
+
+
+def hlle_min_conditioning(c, nbrs, mats):
+    """smallest Gram-Schmidt residual ratio over all neighbourhoods (0.0 = degenerate / not computable)"""
     k, d = len(nbrs[0]), c["d"]
     if k < hlle_ncols(d):
-        return False
+        return 0.0
+    worst = 1.0
     for i, l in enumerate(nbrs):
-        if "flatX" in c:
+        if "locV" in c:
+            V = c["locV"][i]
+        elif "flatX" in c:
             V = [c["flatX"][j] for j in l[:k]]
         else:
             E = mats.get("Eloc")
             if not finite(E):
-                return False
+                return 0.0
             V = [E[i * k + a][k - d:] for a in range(k)]
-        if hlle_conditioning(V, k, d) < thr:
-            return False
-    return True
+        worst = min(worst, hlle_conditioning(V, k, d))
+    return worst
 
 
 REL_M = Fraction(1, 10 ** 7)
@@ -583,19 +779,58 @@ TOL_C = Fraction(1, 10 ** 6)
 TOL_EIG = Fraction(1, 10 ** 9)
 
 
-def local_gap_ok(mats, k, d, rel=1e-7):
-    """eigen-gap at the cut between the k-d smallest and the d largest local eigenvalues, and the d
-    selected eigenvalues non-zero (tangent vectors orthogonal to 1): the property's matrix is unique"""
+EPS = 2.0 ** -52
+COND_SAFETY = 64        # margin on the first-order perturbation bound below
+MAX_COND_TOL = 5e-3     # beyond this the local eigenvectors are not determined well enough to compare anything
+
+
+def local_cond(mats, k, d):
+    """worst, over the samples, of top / gap for the local eigenproblem: gap = distance of the smallest SELECTED
+    eigenvalue from the next one below and from zero (tangent vectors are orthogonal to 1 only for non-zero
+    eigenvalues).  None when some sample has no gap: the property's matrix is not unique there."""
     lam = mats.get("lamloc")
-    if not finite(lam):
-        return False
+    if not finite(lam) or d >= k:
+        return None
+    worst = 1.0
     for row in lam:
-        top = max(abs(float(x)) for x in row) or 1.0
-        if d >= k:
-            return False
-        if float(row[k - d]) - float(row[k - d - 1]) <= rel * top or float(row[k - d]) <= rel * top:
-            return False
-    return True
+        top = max(abs(float(x)) for x in row)
+        gap = min(float(row[k - d]) - float(row[k - d - 1]), float(row[k - d]))
+        if top == 0.0 or gap <= 0.0:
+            return None
+        worst = max(worst, top / gap)
+    return worst
+
+
+def cond_tol(k, cond, floor=0.0):
+    """relative tolerance for anything that is a function of the selected local eigenvectors: a backward stable
+    solver returns the eigenvectors of B + dB, |dB| ~ k eps top, i.e. vectors off by ~ k eps top / gap
+    (Davis-Kahan).  Isotropic neighbourhoods (cond ~ 10) keep the declared floor; strongly anisotropic flats
+    (eigenvalue ratio 1e-9) get what binary64 can deliver, about 1e-5."""
+    return max(float(floor), COND_SAFETY * k * EPS * cond)
+
+
+def local_gap_ok(mats, k, d):
+    """eigen-gap at the cut between the k-d smallest and the d largest local eigenvalues, the d selected ones
+    non-zero, and both resolvable in binary64: the property's matrix is unique and computable"""
+    c = local_cond(mats, k, d)
+    return c is not None and cond_tol(k, c) <= MAX_COND_TOL
+
+
+def locv_cond(c, nbrs):
+    """exact certificate of the curved-symmetric HLLE stream (see locv_certificate), worst top/gap or None"""
+    kern = kern_of(c)
+    worst = 1.0
+    if len(c["locV"]) != len(nbrs):
+        return None
+    for l, V in zip(nbrs, c["locV"]):
+        k = len(nbrs[0])
+        if len(V) != k or any(len(r) != c["d"] for r in V):
+            return None
+        r = locv_certificate(kern, l[:k], V)
+        if r is None:
+            return None
+        worst = max(worst, r)
+    return worst
 
 
 def model_feasible(c, nb, quick, stats=None):
@@ -606,6 +841,8 @@ def model_feasible(c, nb, quick, stats=None):
         return k <= 5 and n <= 12
     if c["meth"] == "ltsa":
         return n * k * k <= 2500
+    if "locV" in c:
+        return d <= 2 and k <= 9 and n <= 13
     if "flatX" in c:
         if d <= 2:
             return k <= 9 and n <= 12
@@ -619,17 +856,23 @@ def model_feasible(c, nb, quick, stats=None):
     return d == 1 and k <= 4 and n <= 8
 
 
-def local_flat_ok(mats, k, d):
-    """hypothesis of C08_*_affine_on_flat observed on the oracle answers: every neighbourhood has exactly d
-    non-zero local eigenvalues"""
+def local_flat_cond(c, nb, mats, k, d):
+    """hypothesis of C08_*_affine_on_flat on a case with intrinsic coordinates: every neighbourhood spans the d-flat
+    (exact rank of the integer coordinates: exactly d non-zero local eigenvalues) and the solver separates the d
+    selected eigenvalues from the rounding noise of the k - d vanishing ones.  Returns the worst top / lambda_d
+    or None."""
     lam = mats.get("lamloc")
-    if not finite(lam) or d >= k:
-        return False
+    if not finite(lam) or d >= k or not nbhd_rank_ok(c["flatX"], nb, k, d):
+        return None
+    worst = 1.0
     for row in lam:
-        top = max(abs(float(x)) for x in row) or 1.0
-        if float(row[k - d]) <= 1e-7 * top or abs(float(row[k - d - 1])) > 1e-9 * top:
-            return False
-    return True
+        top = max(abs(float(x)) for x in row)
+        ld = float(row[k - d])
+        noise = max(abs(float(row[j])) for j in range(k - d))
+        if top == 0.0 or ld <= 0.0 or noise * 1024 > ld:
+            return None
+        worst = max(worst, top / ld)
+    return worst
 
 
 class Stats:
@@ -638,10 +881,14 @@ class Stats:
         self.evals = 0
         self.nontrivial = set()
         self.counts = {"wm_compared": 0, "wm_unique": 0, "wm_degenerate": 0, "emb_checked": 0,
-                       "emb_centred_checked": 0, "emb_affine_checked": 0, "eig_contract_calls": 0,
+                       "emb_centred_checked": 0, "emb_affine_checked": 0, "emb_affine_ill_conditioned": 0,
+                       "eig_contract_calls": 0, "global_contract_calls": 0, "global_contract_const_col": 0,
                        "model_oob_agree": 0, "exceptions": 0, "f7_seen": 0, "hlle_ill_conditioned": 0, "small_k_rejected": 0, "small_k_threw": 0, "small_k_non_affine": 0, "small_k_affine": 0}
         self.samples = []
         self.heavy = {"heavy_d3": 1, "heavy_d4": 0}   # exact HLLE model runs with 10 / 15 Gram-Schmidt columns
+        self.worst_affine = 0.0   # largest affine residual / its tolerance
+        self.worst_rel = 0.0      # largest conditioning-aware relative tolerance used on the entrywise stream
+        self.worst_ratio = 0.0    # largest |impl - model| / tolerance seen on it (how close to an alarm)
 
     def bump(self, c):
         self.hist[c.get("gen", "?")] = self.hist.get(c.get("gen", "?"), 0) + 1
@@ -702,15 +949,25 @@ def check_matrix(ctx, mexe, c, nbrs, mats, Mimpl, model_out, stats):
                                "non-degenerate (exact model succeeds)" % meth)
         return Mmod
     scale = 1 + max_abs(Mmod)
-    unique = True
-    if meth in ("ltsa", "hlle") and "flatX" not in c:
-        unique = local_gap_ok(mats, k, d)
-    if meth == "hlle" and "flatX" in c:
-        unique = True
+    unique, rel = True, float(REL_M)
+    if meth in ("ltsa", "hlle"):
+        # the local matrices are functions of the selected local eigenvectors: unique only with an eigen-gap,
+        # and computable in binary64 only as well as that gap allows (cond_tol)
+        cond = locv_cond(c, nbrs) if "locV" in c else local_cond(mats, k, d)
+        unique = cond is not None and cond_tol(k, cond) <= MAX_COND_TOL
+        if unique and meth == "ltsa":
+            rel = cond_tol(k, cond, REL_M)
+        elif unique:
+            # the exact model starts from the integer coordinates, the C++ from computed eigenvectors: their
+            # error is amplified by the conditioning of the Gram-Schmidt step
+            gs = hlle_min_conditioning(c, nbrs, mats)
+            rel = max(10 * float(REL_M), cond_tol(k, cond) / max(gs, 1e-4))
+            unique = rel <= 4 * MAX_COND_TOL
+    stats.worst_rel = max(stats.worst_rel, rel if unique else 0.0)
     # --- spec clauses on the implementation's own matrix (extracted decision procedure)
     mu = fr(c["shift"]) if meth in ("lle", "ltsa") else Fraction(0)
-    need_const = meth == "lle" or local_gap_ok(mats, k, d) or (meth == "hlle" and "flatX" in c)
-    v = run_model_lines(ctx, mexe, ["MCHK %d %s %s %s" % (n, q_tok(REL_M * scale), q_tok(mu), qmat_text(Mimpl))])[0]
+    need_const = meth == "lle" or unique
+    v = run_model_lines(ctx, mexe, ["MCHK %d %s %s %s" % (n, q_tok(Fraction(rel) * scale), q_tok(mu), qmat_text(Mimpl))])[0]
     if v == "V 1":
         ctx.violation(slim(c), "assembled %s matrix is not symmetric" % meth)
     elif v == "V 2" and need_const:
@@ -722,7 +979,9 @@ def check_matrix(ctx, mexe, c, nbrs, mats, Mimpl, model_out, stats):
     stats.counts["wm_compared"] += 1
     if unique:
         stats.counts["wm_unique"] += 1
-    tol = REL_M * scale * (10 if meth == "hlle" else 1)
+    tol = Fraction(rel) * scale
+    if diff is not None and unique and diff > 0:
+        stats.worst_ratio = max(stats.worst_ratio, float(diff / tol))
     if diff is None or diff > tol:
         detail = ("%s matrix entry %s: implementation %s vs exact model %s (|diff| %.3e > tol %.1e)"
                   % (meth, at, float(Mimpl[at[0]][at[1]]) if diff is not None else "nan",
@@ -745,12 +1004,20 @@ def check_eig_contract(ctx, mexe, c, nbrs, mats, stats):
     if not finite(E) or not finite(lam) or len(E) != n * k or len(lam) != n:
         ctx.mismatch(slim(c), "local eigensolver returned non-finite values")
         return
-    kern = [[fr(x) for x in r] for r in c["kern"]]
-    top = 1 + max_abs(lam)
-    tol = TOL_EIG * top * k
+    kern = kern_of(c)
+    # the contract is homogeneous (C08_eig_contract_scale): orthonormality is absolute, the residual B E - E diag(lam)
+    # is measured against the largest eigenvalue of that call.  The extracted procedure takes one tolerance: it is
+    # run on the call divided by a power of two s >= max |lam| (kernel table and eigenvalues; exact)
+    top0 = max((abs(x) for x in lam[0]), default=Fraction(0))
+    s0 = Fraction(1)
+    while s0 < top0:
+        s0 *= 2
+    while s0 / 2 >= top0 > 0:
+        s0 /= 2
+    tol = TOL_EIG * k
     lines = ["LOCB %d %s %s" % (n, nbrs_text(nbrs), qmat_text(kern)),
-             "EIGC %d 1 %s %s %s %s %s" % (n, q_tok(tol), nbrs_text(nbrs), qmat_text(kern),
-                                          qmat_text(E[:k]), qmat_text(lam[:1]))]
+             "EIGC %d 1 %s %s %s %s %s" % (n, q_tok(tol), nbrs_text(nbrs), qmat_text([[x / s0 for x in r] for r in kern]),
+                                          qmat_text(E[:k]), qmat_text([[x / s0 for x in lam[0]]]))]
     out = run_model_lines(ctx, mexe, lines)
     w = out[0].split()
     if w[0] != "OK" or len(w) != 1 + n * k * k:
@@ -764,12 +1031,13 @@ def check_eig_contract(ctx, mexe, c, nbrs, mats, stats):
         B = [vals[(s_ * k + a) * k:(s_ * k + a + 1) * k] for a in range(k)]
         Es = E[s_ * k:(s_ + 1) * k]
         ls = lam[s_]
-        ok = all(ls[a] <= ls[a + 1] + tol for a in range(k - 1))
+        tolr = tol * max((abs(x) for x in ls), default=Fraction(0))
+        ok = all(ls[a] <= ls[a + 1] + tolr for a in range(k - 1))
         for a in range(k):
             for b in range(k):
                 g = sum(Es[t][a] * Es[t][b] for t in range(k)) - (1 if a == b else 0)
                 r = sum(B[a][t] * Es[t][b] for t in range(k)) - Es[a][b] * ls[b]
-                if abs(g) > tol or abs(r) > tol:
+                if abs(g) > tol or abs(r) > tolr:
                     ok = False
         if not ok and s_ not in bad:
             bad.append(s_)
@@ -780,6 +1048,59 @@ def check_eig_contract(ctx, mexe, c, nbrs, mats, stats):
     if finite(rsk):
         if abs(rsk[0][0] * rsk[0][0] * k - 1) > Fraction(1, 10 ** 12):
             ctx.mismatch(slim(c), "sqrt oracle: k * (1/sqrt k)^2 != 1")
+
+
+def check_global_contract(ctx, mexe, c, res, stats):
+    """oracle contract of the GLOBAL solver call (Lle_Proof_EndToEnd.global_contract, the hypothesis of the
+    `_partial` optimality theorems) on the call eigendecomposition_impl_dense makes, replicated by the harness on the
+    matrix the routine returned: full orthonormal E, S E = E diag(lam) for S = (M + M^T)/2, ascending lam, and a
+    constant first column whenever the smallest eigenvalue is simple.  Exact rational arithmetic here on every
+    call; through the extracted eig_contract_b as well when N <= 8."""
+    n = c["n"]
+    M, E, vals = res["mats"].get("M"), res["mats"].get("gE"), res["mats"].get("eigvals")
+    if not finite(M) or not finite(E) or not finite(vals) or len(E) != n or len(vals) != n:
+        return
+    lam = [r[0] for r in vals]
+    S = [[(M[i][j] + M[j][i]) / 2 for j in range(n)] for i in range(n)]
+    top = max(abs(x) for x in lam)
+    p2 = Fraction(1)
+    while p2 < top:
+        p2 *= 2
+    tol = TOL_EIG * n
+    tolr = tol * (top if top > 0 else 1)
+    stats.counts["global_contract_calls"] += 1
+    ok = all(lam[a] <= lam[a + 1] + tolr for a in range(n - 1))
+    ET = [[E[i][a] for i in range(n)] for a in range(n)]
+    for a in range(n):
+        Sa = [sum(S[i][t] * ET[a][t] for t in range(n)) for i in range(n)]      # S e_a
+        for i in range(n):
+            if abs(Sa[i] - lam[a] * ET[a][i]) > tolr:
+                ok = False
+        for b in range(a, n):
+            g = sum(x * y for x, y in zip(ET[a], ET[b])) - (1 if a == b else 0)
+            rr = sum(E[a][t] * E[b][t] for t in range(n)) - (1 if a == b else 0)     # E E^T = I too
+            if abs(g) > tol or abs(rr) > tol:
+                ok = False
+    if n >= 2 and lam[1] - lam[0] > Fraction(1, 10 ** 6) * (1 + top):
+        stats.counts["global_contract_const_col"] += 1
+        c0 = ET[0][0]
+        mu0 = fr(c["shift"]) if c["meth"] in ("lle", "ltsa") else Fraction(0)
+        r1 = max(abs(sum(row) - mu0) for row in S)          # how far S 1 = mu 1 is from holding (rounding)
+        tolc = Fraction(1, 10 ** 6) + 4 * n * r1 / (lam[1] - lam[0])
+        if c0 == 0 or any(abs(x - c0) > tolc for x in ET[0]):
+            # legitimate only if the constant vector is not the minimiser: then M 1 = mu 1 fails or mu is not the
+            # smallest eigenvalue, which the matrix clauses / the centring clause report; here it is the contract
+            mu = fr(c["shift"]) if c["meth"] in ("lle", "ltsa") else Fraction(0)
+            if abs(lam[0] - mu) <= Fraction(1, 10 ** 6) * (1 + top):
+                ok = False
+    if ok and n <= 8:
+        o = run_model_lines(ctx, mexe, ["EIGM %d %s %s %s %s" % (
+            n, q_tok(tol), qmat_text([[x / p2 for x in r] for r in S]), qmat_text(E),
+            qmat_text([[x / p2 for x in lam]]))])[0]
+        ok = o.split() == ["OK", "1"]
+    if not ok:
+        ctx.mismatch(slim(c), "oracle contract of the global eigensolver (full orthonormal decomposition, ascending, "
+                              "constant first column) fails on the call eigendecomposition_impl_dense makes")
 
 
 def affine_residual(X, ycol):
@@ -917,6 +1238,14 @@ def evaluate(ctx, exe, mexe, cases, stats):
         opt = sum(lam[1:1 + d])
         top = 1 + max(abs(x) for x in lam)
         tol = TOL_Y * top * d
+        if c["meth"] in ("ltsa", "hlle"):
+            # Y diagonalises the matrix the C++ assembled from ITS local eigenvectors; the reference matrix is the
+            # model's: on ill-conditioned (strongly anisotropic) neighbourhoods the two differ by cond_tol
+            cnd = local_cond(res["mats"], len(nb[0]), d)
+            if cnd is not None:
+                gs = hlle_min_conditioning(c, nb, res["mats"]) if c["meth"] == "hlle" else 1.0
+                tol = max(tol, Fraction(cond_tol(len(nb[0]), cnd) / max(gs, 1e-4)) * top * d)
+        check_global_contract(ctx, mexe, c, res, stats)
         mu = fr(c["shift"]) if c["meth"] in ("lle", "ltsa") else Fraction(0)
         gap = min(lam[1:1 + d]) - mu
         centred = gap > Fraction(1, 10 ** 4) * top and abs(lam[0] - mu) <= Fraction(1, 10 ** 6) * top
@@ -959,7 +1288,8 @@ def evaluate(ctx, exe, mexe, cases, stats):
             continue
         if c["meth"] == "hlle" and not hlle_well_conditioned(c, nb, res["mats"]):
             continue
-        if not local_flat_ok(res["mats"], len(nb[0]), c["d"]):
+        fcond = local_flat_cond(c, nb, res["mats"], len(nb[0]), c["d"])
+        if fcond is None:
             continue
         Y = res["mats"]["emb"]
         if not finite(Y):
@@ -976,6 +1306,11 @@ def evaluate(ctx, exe, mexe, cases, stats):
         # the bottom eigenspace must be exactly the d+1 affine functions: well separated from the rest
         if not (abs(lam[d] - mu) <= 1e-9 * top and lam[d + 1] - mu > 1e-5 * top):
             continue
+        # the local projectors are exact up to cond_tol, the bottom eigenspace of M moves by that over its gap
+        tol_aff = max(1e-5, cond_tol(len(nb[0]), fcond) / (lam[d + 1] - mu))
+        if tol_aff > 1e-2:
+            stats.counts["emb_affine_ill_conditioned"] += 1
+            continue
         stats.counts["emb_affine_checked"] += 1
         worst = Fraction(0)
         for col in range(d):
@@ -984,7 +1319,9 @@ def evaluate(ctx, exe, mexe, cases, stats):
                 worst = None
                 break
             worst = max(worst, r)
-        if worst is not None and worst > Fraction(1, 10 ** 5):
+        if worst is not None:
+            stats.worst_affine = max(stats.worst_affine, float(worst) / tol_aff)
+        if worst is not None and worst > Fraction(tol_aff):
             ctx.violation(slim(c), "samples lie on a %d-flat but a column of the %s embedding is not an affine "
                                    "function of the intrinsic coordinates (residual %.3e)" % (d, c["meth"], float(worst)))
 
@@ -1053,29 +1390,54 @@ def shrink_violations(ctx, exe, mexe, budget=16):
 # ----------------------------------------------------------------------------- plan
 def build_cases(ctx, rng, budget, thorough):
     cases = []
-    for _ in range(budget["lle"]):
+    g = lambda key: budget.get(key, 0)
+    for _ in range(g("lle")):
         cases.append(gen_wm_lle(rng))
-    for _ in range(budget["ltsa"]):
+    for _ in range(g("lle_scaled")):
+        cases.append(with_kscale(rng, gen_wm_lle(rng)))
+    for _ in range(g("ltsa")):
         cases.append(gen_wm_ltsa(rng))
-    for _ in range(budget["hlle_flat"]):
+    for _ in range(g("ltsa_scaled")):
+        cases.append(with_kscale(rng, gen_wm_ltsa(rng)))
+    for i in range(g("ltsa_aniso")):
+        cases.append(gen_wm_aniso(rng, "ltsa", hard=i % 2 == 0))
+    for _ in range(g("hlle_flat")):
         cases.append(gen_wm_hlle_flat(rng, 4 if thorough else 3))
-    for _ in range(budget["hlle_oracle"]):
+    for _ in range(g("hlle_scaled")):
+        cases.append(with_kscale(rng, gen_wm_hlle_flat(rng, 2)))
+    for i in range(g("hlle_aniso")):
+        cases.append(gen_wm_aniso(rng, "hlle", hard=i % 2 == 0))
+    for i in range(g("hlle_curved")):
+        c = gen_wm_hlle_curved(rng)
+        cases.append(with_kscale(rng, c) if i % 3 == 2 else c)
+    for _ in range(g("hlle_oracle")):
         cases.append(gen_wm_hlle_oracle(rng))
-    for _ in range(budget["malformed"]):
+    for _ in range(g("malformed")):
         cases.append(gen_malformed(rng))
     for meth in ("lle", "ltsa", "hlle"):
-        for _ in range(budget["emb"]):
+        for _ in range(g("emb")):
             cases.append(gen_emb(rng, meth, thorough))
-    for _ in range(budget["f7"]):
+        for _ in range(g("emb_scaled")):
+            cases.append(with_kscale(rng, gen_emb(rng, meth, thorough)))
+        if meth != "lle":
+            for i in range(g("emb_aniso")):
+                cases.append(gen_emb_aniso(rng, meth, hard=i % 2 == 0))
+    for _ in range(g("f7")):
         cases.append(gen_emb_f7(rng))
-    for _ in range(budget.get("small_k", 0)):
+    for _ in range(g("small_k")):
         cases.append(gen_emb_hlle_small_k(rng))
     return cases
 
 
-QUICK = {"lle": 30, "ltsa": 20, "hlle_flat": 16, "hlle_oracle": 1, "malformed": 4, "emb": 8, "f7": 1, "small_k": 2}
-THOROUGH = {"lle": 240, "ltsa": 180, "hlle_flat": 120, "hlle_oracle": 12, "malformed": 24, "emb": 60, "f7": 2, "small_k": 12}
-SEARCH = {"lle": 120, "ltsa": 80, "hlle_flat": 60, "hlle_oracle": 10, "malformed": 0, "emb": 40, "f7": 0, "small_k": 4}
+QUICK = {"lle": 22, "lle_scaled": 8, "ltsa": 13, "ltsa_scaled": 3, "ltsa_aniso": 4, "hlle_flat": 9, "hlle_scaled": 2,
+         "hlle_aniso": 2, "hlle_curved": 3, "hlle_oracle": 1, "malformed": 4, "emb": 6, "emb_scaled": 2, "emb_aniso": 2,
+         "f7": 1, "small_k": 2}
+THOROUGH = {"lle": 180, "lle_scaled": 60, "ltsa": 120, "ltsa_scaled": 30, "ltsa_aniso": 30, "hlle_flat": 80,
+            "hlle_scaled": 20, "hlle_aniso": 20, "hlle_curved": 24, "hlle_oracle": 12, "malformed": 24, "emb": 44,
+            "emb_scaled": 16, "emb_aniso": 12, "f7": 2, "small_k": 12}
+SEARCH = {"lle": 80, "lle_scaled": 40, "ltsa": 50, "ltsa_scaled": 15, "ltsa_aniso": 15, "hlle_flat": 40,
+          "hlle_scaled": 10, "hlle_aniso": 10, "hlle_curved": 10, "hlle_oracle": 10, "emb": 28, "emb_scaled": 12,
+          "emb_aniso": 8, "small_k": 4}
 
 
 GEN_FILES = (("t_hlle", "HlleLoop.v"), ("t_eig", "EigSelect.v"))
